@@ -32,10 +32,12 @@ RULE = ('layer 1: generated (taxonomy, marker table, query gene set, '
         'expected; distinct = distinct (shape, class, min_markers, flatten, '
         'drop) tuples')
 ASSUMPTIONS = [
-    'a gene unknown to the reference is always generated inside the query '
-    'gene set (an unknown gene absent from the query inside a list that is '
-    'patched is silently dropped by the code; the statement is read as not '
-    'covering genes that cannot be used)',
+    'a gene unknown to the reference is generated either inside the query '
+    'gene set, or absent from the query but in a list that is used as it '
+    'stands (the root\'s, or a parent\'s with enough own markers in the '
+    'query); an unknown gene absent from the query inside a list that is '
+    'replaced by the ancestor fallback is silently dropped by the code and '
+    'the statement is read as not covering it',
     'single-child parents and a single-child root may carry any list',
 ]
 
@@ -82,6 +84,24 @@ def model_used(red, table, Q, min_markers):
                 error = True
             expected[key] = used
     return expected, error
+
+
+def unpatched_keys(red, table, Q, min_markers):
+    """
+    keys of consulted parents (> 1 child) whose own list is used as it
+    stands: the root, and parents with enough own markers in the query
+    """
+    Q = set(Q)
+    keys = []
+    if len(red.children(None, None)) > 1 and 'None' in table:
+        keys.append('None')
+    for lv in red.hierarchy[:-1]:
+        for node in red.nodes[lv]:
+            key = f'{lv}/{node}'
+            if len(red.children(lv, node)) > 1 and key in table and \
+                    len(set(table[key]) & Q) >= min_markers:
+                keys.append(key)
+    return keys
 
 
 def wild_table(rng, model, ref_genes, Q, min_markers):
@@ -147,6 +167,11 @@ def make_layer1(rng):
         # unusable root
         table['None'] = [g for g in table['None'] if g not in set(q)]
         klass = 'root-unusable'
+    elif r < 0.1 + 0.06:
+        # marker unknown to the reference and absent from the query, in a
+        # list that is used as it stands (added in run_layer1, once the
+        # tree actually voted on is known)
+        klass = 'unknown-to-reference-absent-from-query'
     elif r < 0.2:
         # marker unknown to the reference (present in the query)
         unk = 'unk_gene'
@@ -184,6 +209,13 @@ def run_layer1(spec, work, counters, viol, feats):
             for k in tbl:
                 allm |= set(tbl[k])
             tbl = {'None': sorted(allm)}
+        if klass == 'unknown-to-reference-absent-from-query':
+            keys = unpatched_keys(red, tbl, q, min_markers)
+            if keys:
+                key = keys[int(rng.integers(len(keys)))]
+                tbl[key] = list(tbl[key]) + ['unk_absent_gene']
+            else:
+                klass = 'wild'
         expected, want_error = model_used(red, tbl, q, min_markers)
         if len(red.children(None, None)) < 2 and \
                 not (set(tbl.get('None', [])) & set(q)):
@@ -290,6 +322,17 @@ def run_e2e(spec, work, counters, viol, feats):
         else:
             key = sorted(table.keys())[int(rng.integers(len(table)))]
             table[key] = list(table[key]) + [extra[0]]
+    elif klass == 'unknown-to-reference-absent-from-query':
+        keys = unpatched_keys(
+            oracles.reduced_model(w), table, Q,
+            w.config['type_assignment']['min_markers'])
+        if w.config['flatten']:
+            keys = sorted(table.keys())
+        if not keys:
+            klass = 'wild'
+        else:
+            key = keys[int(rng.integers(len(keys)))]
+            table[key] = list(table[key]) + ['unk_absent_gene']
     w.marker_table = table
     w.marker_path.write_text(json.dumps(table))
     red = oracles.reduced_model(w)
@@ -393,7 +436,8 @@ def gen_cases(tier, seed):
         c['bootstrap_iteration'] = int(rng.choice([1, 3]))
         c['n_cells'] = min(c['n_cells'], 20)
         c['e2e_class'] = ['wild', 'wild', 'wild', 'wild', 'root-unusable',
-                          'unknown-to-reference'][i % 6]
+                          'unknown-to-reference', 'wild',
+                          'unknown-to-reference-absent-from-query'][i % 8]
         cases.append(c)
     return cases
 
